@@ -128,12 +128,29 @@ def pinv(A):
     return memo[key].copy()
 
 
+OPAQUE = {'cov': False}
+
+
+def opaque_symmetric(name, args, k):
+    """k x k symmetric matrix of uninterpreted functions of args"""
+    M = np.empty((k, k), dtype=object)
+    for i in range(k):
+        for j in range(i, k):
+            M[i, j] = M[j, i] = ENG.app('%s_%d_%d' % (name, i, j), *args)
+    return M
+
+
 def cov(X, rowvar=True, bias=False):
-    """closed form: (sum x x^T - n m m^T) / (n - 1 + bias)."""
+    """closed form: (sum x x^T - n m m^T) / (n - 1 + bias)  (or, when a
+    contract asks for modular reasoning, an uninterpreted symmetric function of
+    the data block and the bias flag)."""
     if X.ndim != 2:
         raise EngineGap('cov of non-2d')
     if rowvar:
         X = X.T
+    if OPAQUE['cov']:
+        ENG.used_stubs.add('np.cov as an uninterpreted symmetric function of the data block (modular; closed form verified on the single-edge configuration)')
+        return opaque_symmetric('Cov_b%d' % int(bool(bias)), list(X.flat), X.shape[1])
     n = X.shape[0]
     m = np.sum(X, axis=0) / n
     D = X - m
